@@ -18,6 +18,7 @@ from props import client_common
 NAMES = {
     501: "a (tower, locator) the client was notified of has no record at all (neither receipt, pending nor invalid)",
     502: "a (tower, locator) has more than one record at a settle point",
+    503: "the database sampler read an intermediate durable state in which a (tower, locator) that had a record has none, the tower's row still there",
     1401: "a registration was stored that must not be (receipt does not verify or does not strictly extend)",
     1402: "a verifying, strictly extending registration was not stored (or registertower's answer disagrees with the store)",
     1403: "a stored registration receipt does not verify under the tower id",
@@ -103,7 +104,7 @@ def classify(fail_line):
     if not m:
         return None
     prop, check, fam, step, t, l, site, case = m.groups()
-    key = {"check": int(check), "site": site}
+    key = {"check": int(check), "site": "-" if int(check) == 503 else site}     # (503: `site` carries the sample, not a model site)
     if int(check) in (1303, 1304, 1305, 1405):
         key["detail"] = int(l)      # for these checks the `l` field carries the variant of the check, not a locator
     key.update(pattern_flags(case))
@@ -257,6 +258,12 @@ def run_property(ctx, pid, targets, rule, assumptions):
         mon = [m for m in mon if m and m["prop"] == pid]
         cf = [f for f in fails if f.startswith("FAIL corr")]
         # a failure must reproduce when the scenario is replayed on the implementation (the harness is timing driven)
+        # (a sample of the database sampler IS an observation of a durable state: it needs no confirmation, and the window it fell
+        #  into is a matter of milliseconds, so a replay may well miss it)
+        for m in mon:
+            if m["check"] == 503 and m not in mine:
+                mine.append(m)
+        mon = [m for m in mon if m["check"] != 503]
         if mon:
             cases = sorted({m["case"] for m in mon})[:12]
             for attempt in range(2):
@@ -287,6 +294,10 @@ def run_property(ctx, pid, targets, rule, assumptions):
         cov["traces_validated_against_impl"] = total.get("cases", 0)
         cov["settle_point_comparisons"] = total.get("settle_compares", 0)
         cov["kills_placed"] = total.get("kills", 0)
+        cov["database_samples_taken"] = total.get("db_samples", 0)
+        cov["pending_to_accepted_moves_sampled"] = total.get("moves_sampled", 0)
+        cov["moves_whose_intermediate_state_was_sampled"] = total.get("moves_seen_with_both_records", 0)
+        cov["vanished_samples"] = total.get("vanished_samples", 0)
         cov["requests_seen_by_towers"] = total.get("requests", 0)
         cov["max_candidate_states"] = total.get("max_candidates", 0)
         cov["settle_steps_that_hit_their_cap"] = total.get("settle_caps", 0)
@@ -315,7 +326,7 @@ def run_property(ctx, pid, targets, rule, assumptions):
         seen.add(kk)
         ctx.add_violation(f"{pid} monitor false on the real plugin: {NAMES.get(m['check'], m['check'])} (step {m['step']}, tower {m['t']}, locator {m['l']})",
                           {"kind": "client_proc", "case": m["case"], "check": m["check"], "step": m["step"], "tower": m["t"], "locator": m["l"],
-                           "model_abort_site": m["site"], "how": "steps are (kind a b): 1 REG t class | 2 MODE t class | 3 UP t 0/1 | 4 REV l | 5 SETTLE | "
+                           ("database_sample" if m["check"] == 503 else "model_abort_site"): m["site"], "how": "steps are (kind a b): 1 REG t class | 2 MODE t class | 3 UP t 0/1 | 4 REV l | 5 SETTLE | "
                            "6 SLEEP ms | 7 RETRY t | 8 ABANDON t | 9 KILL | 10 START | 11 REVNOWAIT l ms | 12 WAKE (see harness/src/bin/client_proc/main.rs)"},
                           m["key"])
     return ctx.finish("proof")
